@@ -58,6 +58,67 @@ impl LpEngine {
 
 enum G { A(w64::HistGen), B(w128::HistGen) }
 
+/// "pnl band" scenario: LP liquidity by real deposits, ONE open position (either side, either
+/// collateral token), then an index-price move that puts the pending trader profit of that side at a
+/// chosen fraction of the side's pool value — below both max-pnl caps, between the withdrawal and the
+/// deposit cap (caps in both orders, or equal), just around each cap, or above both — and then, at
+/// UNCHANGED prices and after the on-chain `pre_execute` updates: a deposit→withdraw-all round trip,
+/// a withdrawal by an old LP, and a second round trip. Requests in execution order.
+fn band_scenario(r: &mut Rng, sid: &str, w: u32) -> Vec<String> {
+    let (unit, scale): (u128, u128) = if w == 64 { (1_000_000_000, 1) } else { (100_000_000_000_000_000_000, 100_000_000_000) };
+    let mut cfg: Vec<u128> = if w == 64 { w64::random_cfg(r).iter().map(|x| *x as u128).collect() } else { w128::random_cfg(r) };
+    let pct = |x: u128| unit / 100 * x;
+    let (cd, cw) = *r.pick(&[(60u128, 30u128), (60, 30), (30, 60), (50, 50), (80, 20), (45, 40)]);
+    cfg[17] = pct(cd); cfg[18] = pct(cw);
+    cfg[15] = unit * 3; cfg[16] = unit * 3;                 // reserve factors: never the binding check here
+    cfg[24] = if w == 64 { u64::MAX as u128 / 4 } else { u128::MAX / 4 };
+    cfg[7] = 0; cfg[8] = 0;                                 // no position price impact: the position opens at the oracle price
+    if r.chance(1, 2) { cfg[1] = 0; cfg[2] = 0; }           // half of the scenarios without swap impact (no F-C06 credit)
+    if r.chance(1, 2) { cfg[3] = 0; cfg[4] = 0; }           // ... and without swap fees
+    cfg[30] = 0; cfg[31] = 0; cfg[37] = 0;                  // min position size / collateral value, OI collateral multiplier
+    let px0: u128 = *r.pick(&[1000u128, 400, 2500]);
+    let pr = |px: u128| { let a = px * scale; format!("{a} {a} {a} {a} {scale} {scale}") };
+    let (liq_l, liq_s): (u128, u128) = (*r.pick(&[10_000_000_000u128, 3_000_000_000, 50_000_000_000]), 0);
+    let liq_s = if liq_s == 0 { liq_l * px0 * *r.pick(&[1u128, 1, 2]) } else { liq_s };
+    let is_long = r.chance(1, 2);
+    let coll_long = r.chance(1, 2);
+    // position size as a share of the side's pool value (in 1/100)
+    let s100: u128 = *r.pick(&[80u128, 95, 120]);
+    let side_value = if is_long { liq_l * px0 * scale } else { liq_s * scale };
+    let size = side_value / 100 * s100;
+    let coll_value = size / *r.pick(&[2u128, 5, 10]);
+    let coll = if coll_long { coll_value / (px0 * scale) } else { coll_value / scale };
+    // target pnl factor (in 1/1000 of the side's pool value)
+    let (lo, hi) = (cd.min(cw) * 10, cd.max(cw) * 10);
+    let phi: u128 = match r.below(9) { 0 => lo / 2, 1 => lo - lo / 20, 2 => lo + 15, 3 | 4 => (lo + hi) / 2, 5 => hi.saturating_sub(15).max(lo / 2), 6 => hi + 15, 7 => hi + hi / 5, _ => lo.saturating_sub(4) };
+    let phi = phi.min(s100 * 10 - 10).max(1);
+    // long: factor = s(1 - px0/px1)  =>  px1 = px0 / (1 - phi/s);   short: factor = s(1 - px1/px0)  =>  px1 = px0 (1 - phi/s)
+    let px1: u128 = if is_long { px0 * (s100 * 10) / (s100 * 10 - phi) } else { (px0 * (s100 * 10 - phi) / (s100 * 10)).max(1) };
+    let (p0, p1) = (pr(px0), pr(px1));
+    let c: Vec<String> = cfg.iter().map(|x| x.to_string()).collect();
+    let pre = |v: &mut Vec<String>, p: &str| { v.push(format!("mlp dist {sid}")); v.push(format!("mlp ubor {sid} {p}")); v.push(format!("mlp ufund {sid} {p}")); };
+    let mut v = vec![format!("mlp new {sid} {w} {unit} {}", c.join(" "))];
+    pre(&mut v, &p0);
+    v.push(format!("mlp deposit {sid} {liq_l} {liq_s} {p0}"));
+    v.push(format!("mlp deposit {sid} {} {} {p0}", liq_l / 10, liq_s / 10));
+    v.push(format!("mlp open {sid} 0 {} {}", is_long as u8, coll_long as u8));
+    v.push(format!("mlp inc {sid} 0 {coll} {size} {p0}"));
+    v.push(format!("mlp tick {sid} {}", *r.pick(&[0u64, 1, 60, 3600])));
+    // the price moves; fee state brought up to date as the on-chain pre_execute does
+    pre(&mut v, &p1);
+    v.push(format!("mlp pv {sid} 0 1 {p1}"));
+    v.push(format!("mlp pv {sid} 1 0 {p1}"));
+    let (a, b) = match r.below(3) { 0 => (liq_l / 50, 0), 1 => (0, liq_s / 50), _ => (liq_l / 100, liq_s / 100) };
+    v.push(format!("mlp deposit {sid} {a} {b} {p1}"));
+    v.push(format!("mlp withdraw {sid} @MINTED {p1}"));
+    pre(&mut v, &p1);
+    v.push(format!("mlp withdraw {sid} @SUPPLY/{} {p1}", *r.pick(&[3u64, 10, 50])));
+    pre(&mut v, &p1);
+    v.push(format!("mlp deposit {sid} {} {} {p1}", liq_l / 7, liq_s / 9));
+    v.push(format!("mlp withdraw {sid} @MINTED {p1}"));
+    v
+}
+
 /// `pool_value` by its documented formula, in exact arithmetic, from the pools alone. Valid when the
 /// borrowing and distribution clocks are fresh (no pending accrual / distribution). `cfg` = the 56
 /// numbers of `new`; `kind` = pnl factor kind index.
@@ -106,6 +167,14 @@ pub fn run_c06p() {
         let mut req: String = if cli.mode == "replay" { if fi >= file.len() { break; } fi += 1; file[fi - 1].clone() } else {
             if let Some(q) = pending.pop() { q } else {
                 if produced >= cli.n && gen.is_none() { break; }
+                if gen.is_none() && r.chance(2, 5) {
+                    hist += 1;
+                    let sid = format!("b{}x{}", cli.seed, hist);
+                    let w = if r.chance(1, 2) { 64 } else { 128 };
+                    pending = band_scenario(&mut r, &sid, w);
+                    pending.reverse();
+                    continue;
+                }
                 if gen.is_none() {
                     hist += 1;
                     let sid = format!("p{}x{}", cli.seed, hist);
@@ -153,6 +222,10 @@ pub fn run_c06p() {
         };
         produced += 1;
         let sid = req.split(' ').nth(2).unwrap_or("").to_string();
+        if let Some(i) = req.find("@SUPPLY/") {
+            let k: u128 = req[i + 8..].split(' ').next().unwrap().parse().unwrap_or(1);
+            match eng.snap(&sid) { Some(sn) if sn.supply / k.max(1) > 0 => { let tok = req[i..].split(' ').next().unwrap().to_string(); req = req.replace(&tok, &(sn.supply / k.max(1)).to_string()); } _ => continue }
+        }
         if req.contains("@MINTED") {
             match last_dep.get(&sid) { Some(d) if d.0 > 0 => req = req.replace("@MINTED", &d.0.to_string()), _ => continue }
         }
@@ -231,6 +304,16 @@ pub fn run_c06p() {
                     if big(a.supply) + big(amount) != big(b.supply) { out.oracle_fail("withdrawal: supply did not shrink by the burnt amount", &req); }
                     let wellformed = p.lmin <= p.lmax && p.smin <= p.smax && p.imin <= p.imax;
                     // the payout is worth at most the burnt share of the implementation's pool value
+                    // no dilution of the remaining holders, measured with ONE valuation for before and after (the
+                    // deposit's: maximised, deposit cap) computed independently from the pools (fresh clocks)
+                    if let (true, true, Some((unit, cfg))) = (is_fresh && wellformed, a.supply > 0, cfgs.get(&sid)) {
+                        let (vb, va) = (indep_pool_value(b, cfg, *unit, &p, 0, true), indep_pool_value(a, cfg, *unit, &p, 0, true));
+                        if vb > BigInt::from(0) {
+                            out.stat("withdraw.dilution_checked");
+                            let eps = big(a.pools[0].0) * big(p.lmin) / big(*unit) + big(a.pools[0].1) * big(p.smin) / big(*unit) + BigInt::from(2);
+                            if (va + eps) * big(b.supply) < vb * big(a.supply) { out.oracle_fail("withdrawal lowered the value of one market token for the remaining holders (deposit valuation)", &req); }
+                        }
+                    }
                     if let (Some(pb), true) = (pv_before.clone(), wellformed) {
                         out.stat("withdraw.share_checked");
                         let leaving = (big(b.pools[0].0) - big(a.pools[0].0)) * big(p.lmax) + (big(b.pools[0].1) - big(a.pools[0].1)) * big(p.smax);
